@@ -12,7 +12,7 @@ import itertools
 from ..loader import AnalysisError, Tree, unparse
 from ..poly import RF, D, equal, sym
 from ..report import Check
-from ..terms import PW, Opaque, Rel, TermEval
+from ..terms import PW, Logic, Opaque, Rel, TermEval
 
 PID = "C20"
 MOD = "ampform.kinematics.phasespace"
@@ -20,6 +20,18 @@ MOD = "ampform.kinematics.phasespace"
 
 def lam(x, y, z):
     return x**2 + y**2 + z**2 - 2 * (x * y + y * z + z * x)
+
+
+def demand_understood(te: TermEval, what: str, *values) -> None:
+    """Before a term is reported as different from its reference: it must consist of symbols and radicals only.  A
+    leftover application / attribute / item atom is something the evaluator did not read (an object of an unknown
+    class, a callable it could not apply): then the verdict is `cannot decide`, not `wrong`."""
+    from ..terms import deep_atoms
+
+    for v in values:
+        unread = [a for a in deep_atoms(te, v) if isinstance(a, tuple) and a and a[0] != "sqrt"]
+        if unread:
+            raise AnalysisError(f"{what} contains `{unread[0]!r:.80}`, which is not read as a symbol: the term cannot be compared with its reference")
 
 
 def check_kallen_paths(ctx: Check, tree: Tree) -> None:
@@ -62,6 +74,8 @@ def check_kallen_paths(ctx: Check, tree: Tree) -> None:
             else:
                 raise AnalysisError(f"Kallen.evaluate: path condition `{c!r}` outside the grammar")
         ok = equal(v, r)
+        if not ok:
+            demand_understood(te, "Kallen.evaluate", v)
         name = " and ".join(label) or "always"
         ctx.verdict(ok, "R-TERM", f"{kallen.qual}.evaluate::path {name}", tree.loc(ev.node),
                     f"Kallen.evaluate on the path `{name}` returns x^2+y^2+z^2-2xy-2yz-2zx restricted to that case",
@@ -122,6 +136,7 @@ def run(ctx: Check, tree: Tree) -> None:
         if any(i.rule == "R-TERM" and i.verdict == "violation" and "Kallen" in i.key for i in ctx.instances):
             return  # the special-case path is already reported; the other rules need the straight-line form
         raise
+    demand_understood(te, "Kallen.evaluate", base)
     perms = list(itertools.permutations([x, y, z]))
     sym_ok = all(equal(base, K(*p)) for p in perms)
     ctx.verdict(sym_ok, "R-TERM", f"{kallen.qual}.evaluate::symmetric", where, "Kallen(x,y,z) invariant under the 6 permutations of its arguments",
@@ -139,6 +154,8 @@ def run(ctx: Check, tree: Tree) -> None:
     third = te._rf(te.eval_function(third_fn, [s1, s2, *m]))
     total = m[0] ** 2 + m[1] ** 2 + m[2] ** 2 + m[3] ** 2
     t_ok = equal(third + s1 + s2, total)
+    if not t_ok:
+        demand_understood(te, "compute_third_mandelstam", third)
     ctx.verdict(t_ok, "R-TERM", f"{third_fn.qual}::sum-rule", tree.loc(third_fn.node), "sigma1 + sigma2 + compute_third_mandelstam(...) == sum of squared masses",
                 None if t_ok else {"term": repr(third)})
 
@@ -146,6 +163,8 @@ def run(ctx: Check, tree: Tree) -> None:
     kib = te.unfold(RF.atom(kib_atom))
     ref = lam(lam(s1, m[1] ** 2, m[0] ** 2), lam(s2, m[2] ** 2, m[0] ** 2), lam(s3, m[3] ** 2, m[0] ** 2))
     k_ok = equal(kib, ref)
+    if not k_ok:
+        demand_understood(te, "Kibble.evaluate (unfolded)", kib)
     n_mono = len(kib.normalized().n.t)
     ctx.stats["kibble_monomials"] = n_mono
     if n_mono < 50:
@@ -161,46 +180,60 @@ def run(ctx: Check, tree: Tree) -> None:
     key = f"{fn.qual}::piecewise"
     where = tree.loc(fn.node)
     problems = []
-    default_is_outside = None
-    if not (isinstance(pw, PW) and len(pw.branches) == 2):
-        problems.append("not a 2-branch Piecewise")
-    else:
-        (v1, c1), (v2, c2) = pw.branches
-        if not (isinstance(c2, Opaque) and c2.key is True):
-            problems.append("second condition is not `True`")
-        if not isinstance(c1, Rel):
-            problems.append("first condition is not a relation")
-        else:
-            # normalise the first condition to  Kibble  <op>  0
-            lhs = te._rf(c1.lhs) - te._rf(c1.rhs)
-            op = c1.op
-            atom = te.single_atom(lhs)
-            if atom is None or not te.is_app(atom, "::Kibble"):
-                atom = te.single_atom(-lhs)
-                op = {"<=": ">=", "<": ">", ">=": "<=", ">": "<"}.get(op, op)
-            if atom is None or not te.is_app(atom, "::Kibble"):
-                problems.append("condition is not a comparison of `Kibble(...)` with 0")
-            else:
-                got = te.apps[atom].args
-                want = [s1, s2, total - s1 - s2, *m]
-                for name, g, w in zip(["sigma1", "sigma2", "sigma3", "m0", "m1", "m2", "m3"], got, want):
-                    if not equal(te._rf(g), w):
-                        problems.append(f"Kibble field {name} receives {g!r} instead of {w!r}")
-            # two equivalent layouts:  ((1, K <= 0), (out, True))   and   ((out, K > 0), (1, True))
-            one_first = isinstance(v1, RF) and v1.is_const() and v1.const_value() == 1
-            if op == "<=":
-                inside, out_val = v1, v2
-                default_is_outside = True
-            elif op == ">":
-                inside, out_val = v2, v1
-                default_is_outside = False
-            else:
-                inside, out_val = (v1, v2) if one_first else (v2, v1)
-                problems.append(f"comparison `Kibble {op} 0`: the boundary Kibble == 0 (collinear momenta) is physical and must be inside - accepted are `Kibble <= 0 -> 1` or `Kibble > 0 -> outside`")
-            if not (isinstance(inside, RF) and inside.is_const() and inside.const_value() == 1):
-                problems.append(f"inside value is {inside!r}, not 1")
-            if not (isinstance(out_val, RF) and equal(out_val, outside)):
-                problems.append(f"outside branch returns {out_val!r}, not the caller's outside_value")
+    if not isinstance(pw, PW):
+        raise AnalysisError(f"{fn.qual}: the returned value is not read as a Piecewise ({pw!r:.80}): the indicator cannot be judged")
+    # The Piecewise is judged by what it returns in the three regions Kibble < 0, Kibble == 0, Kibble > 0 (and where
+    # every comparison is False: NaN), whatever the number, order and spelling of its branches.
+    kibble_atoms: dict = {}
+
+    def truth(cond):
+        """The truth value of a branch condition as a function of sign(Kibble): {-1, 0, 1} -> bool, NaN -> bool."""
+        if isinstance(cond, Opaque) and isinstance(cond.key, bool):
+            return {-1: cond.key, 0: cond.key, 1: cond.key, "nan": cond.key}
+        if isinstance(cond, Logic):
+            parts = [truth(a) for a in cond.args]
+            fold = {"not": lambda vs: not vs[0], "and": all, "or": any}[cond.op]
+            return {region: fold([p[region] for p in parts]) for region in (-1, 0, 1, "nan")}
+        if isinstance(cond, Rel) and cond.op in {"<=", "<", ">=", ">", "==", "!="}:
+            lhs = te._rf(cond.lhs) - te._rf(cond.rhs)
+            for sign, side in ((1, lhs), (-1, -lhs)):
+                atom = te.single_atom(side)
+                if atom is not None and te.is_app(atom, "::Kibble"):
+                    kibble_atoms[atom] = True
+                    table = {"<=": (True, True, False), "<": (True, False, False), ">=": (False, True, True), ">": (False, False, True),
+                             "==": (False, True, False), "!=": (True, False, True)}[cond.op]
+                    neg, zero, pos = table if sign > 0 else (table[2], table[1], table[0])
+                    return {-1: neg, 0: zero, 1: pos, "nan": cond.op == "!="}
+        raise AnalysisError(f"{fn.qual}: branch condition `{cond!r:.80}` is not a comparison of `Kibble(...)` with 0 (nor True): the indicator cannot be judged")
+
+    tables = [(val, truth(cond)) for val, cond in pw.branches]
+
+    def value_at(region):
+        for val, table in tables:
+            if table[region]:
+                return val
+        return None  # no branch applies: SymPy evaluates the Piecewise to nan there
+
+    def is_one(v):
+        return isinstance(v, RF) and v.is_const() and v.const_value() == 1
+
+    if not kibble_atoms:
+        problems.append("no branch condition compares `Kibble(...)` with 0")
+    for atom in kibble_atoms:
+        got = te.apps[atom].args
+        want = [s1, s2, total - s1 - s2, *m]
+        for name, g, w in zip(["sigma1", "sigma2", "sigma3", "m0", "m1", "m2", "m3"], got, want):
+            if not equal(te._rf(g), w):
+                demand_understood(te, f"{fn.qual}: the value of Kibble field {name}", te._rf(g))
+                problems.append(f"Kibble field {name} receives {g!r} instead of {w!r}")
+    below, boundary, above, at_nan = (value_at(r) for r in (-1, 0, 1, "nan"))
+    if not is_one(below):
+        problems.append(f"inside value is {below!r}, not 1 (where Kibble < 0)")
+    if not is_one(boundary):
+        problems.append(f"on the boundary Kibble == 0 the indicator is {boundary!r}, not 1: the boundary (collinear momenta) is physical and must be inside - accepted are `Kibble <= 0 -> 1` or `Kibble > 0 -> outside`")
+    if not (isinstance(above, RF) and equal(above, outside)):
+        problems.append(f"outside branch returns {above!r}, not the caller's outside_value (where Kibble > 0)")
+    default_is_outside = not is_one(at_nan)
     ctx.verdict(not problems, "R-TERM", key, where,
                 "is_within_phasespace == 1 where Kibble(s1,s2,sum m^2 - s1 - s2,m0,m1,m2,m3) <= 0, the caller's outside_value elsewhere (either Piecewise layout)", problems or None)
     # R-NAN: a comparison with NaN is False, so NaN falls into the otherwise-branch.  Either Kibble is
